@@ -271,7 +271,7 @@ class C15(core.Check):
         old_str = self.gen.STR
         try:
             if k.random() < 0.35:
-                self.gen.STR = ["tiles/*.tif", "*/location", "a /* b", "c */ d", "roads", "x_y"]
+                self.gen.STR = ["tiles/*.tif", "*/location", "a /* b", "c */ d", "roads", "x_y", "first line\nsecond line", "one\n\ntwo"]
             doc = self.gen.document(w, "map", comments=k.choice([0.0, 0.2]), nl="\n")
         finally:
             self.gen.STR = old_str
